@@ -14,7 +14,7 @@ for d in "$DIR"/$PAT.diff; do
     line="$line $prop:exit=$code,violations=$v"
     [ $code -ne 0 ] && echo "$out" | grep '^VIOLATION\|^HARNESS' | head -3 | cut -c1-300
   done
-  git -C /repo checkout -- .
+  git -C /repo checkout -- . && git -C /repo clean -fdq -- cli core
   echo "$line" | tee -a "$OUT.tmp"
 done
 mv "$OUT.tmp" "$OUT"
